@@ -1022,6 +1022,7 @@ def phase3_inputs(rng, big):
     # (a)(c)(d) reuse / edit histories of scheme objects and linear objects
     for i in range(120 if big else 14):
         n1, n2 = rng.randint(2, 5), rng.randint(2, 5)
+        if i % 2 == 0: n2 = n1                  # same parameter count, different neighbour table / signals
         name = SCHEMES[i % 7]
         s1 = rand_scheme(rng, name); s2 = rand_scheme(rng, name)
         if s2["par"] == s1["par"]: s2["par"] = [str(Fraction(x) + 1) for x in s2["par"]]
@@ -1029,12 +1030,13 @@ def phase3_inputs(rng, big):
                "objA": rand_mock_obj(rng, n1), "objB": rand_mock_obj(rng, n2), "seed": rng.randrange(10 ** 9),
                "mesh": ["rect", "delaunay"][(i // 3) % 2], "signal_scale": rng.choice([1, 2])}
     # (e) tiny / huge coefficients and signals (mock mappers: exact), real meshes with anisotropic pixels and shifted origins
-    for i in range(140 if big else 28):
-        n = rng.randint(3, 7)
+    for i in range(168 if big else 42):
+        n = rng.randint(3, 6)
         o = rand_mock_obj(rng, n)
         sc = rand_scheme(rng, SCHEMES[i % 7])
         pool = TINY if i % 2 == 0 else HUGE
-        sc["par"] = [rng.choice(pool) if (k == 0 or rng.random() < 0.5) else p for k, p in enumerate(sc["par"])]
+        # every scheme meets every tiny coefficient (2^-20: its square 9e-13 lies far below the 1e-8 ridge)
+        sc["par"] = [pool[(i // 7) % len(pool)] if k == 0 else (rng.choice(pool) if rng.random() < 0.5 else p) for k, p in enumerate(sc["par"])]
         if i % 4 == 1:    # tiny / tied / zero signals
             o["signals"] = [rng.choice(["0", "1/1073741824", "1/1073741824", "1", "1/2"]) for _ in range(n)]
         yield {"op": "mock", "scheme": sc, "obj": o, "scale": "tiny" if i % 2 == 0 else "huge"}
